@@ -90,9 +90,25 @@ fn generate_indirect_store_item(structitems: &[DataItem]) -> Vec<TokenStream> {
         stored_structitems.push(match &item.basetype {
             BaseType::Sequence { seqtype } => {
                 let itemname = format_ident!("{}", item.varname.as_ref().unwrap());
-                let locationinfo = quote! {(*#location.get(idx).unwrap_or_else(|| &0))};
+                // the location info of an item is a line offset, or (line offset, is_hex) for integers, or an array of these
+                let locationinfo =
+                    quote! {(*#location.get(idx).unwrap_or(&Default::default()))};
+                // numbers are stored by value, everything else provides its own conversion from a reference
+                let itemvalue = match &**seqtype {
+                    BaseType::Char
+                    | BaseType::Int
+                    | BaseType::Long
+                    | BaseType::Int64
+                    | BaseType::Uchar
+                    | BaseType::Uint
+                    | BaseType::Ulong
+                    | BaseType::Uint64
+                    | BaseType::Double
+                    | BaseType::Float => quote! {(*item)},
+                    _ => quote! {item},
+                };
                 let parsercall =
-                    generate_indirect_store_simple_item(&quote! {item}, &locationinfo, seqtype);
+                    generate_indirect_store_simple_item(&itemvalue, &locationinfo, seqtype);
                 storageidx += 1;
                 quote! {a2lfile::GenericIfData::Sequence({
                     let mut sequence_content = Vec::new();
@@ -129,6 +145,16 @@ fn generate_indirect_store_simple_item(
     locationinfo: &TokenStream,
     basetype: &BaseType,
 ) -> TokenStream {
+    generate_indirect_store_nested_item(itemname, locationinfo, basetype, 0)
+}
+
+// depth: nesting level of arrays; each level needs an index variable of its own
+fn generate_indirect_store_nested_item(
+    itemname: &TokenStream,
+    locationinfo: &TokenStream,
+    basetype: &BaseType,
+    depth: usize,
+) -> TokenStream {
     match basetype {
         BaseType::None => quote! {a2lfile::GenericIfData::None},
         BaseType::Char => {
@@ -164,15 +190,18 @@ fn generate_indirect_store_simple_item(
             if arraytype.basetype == BaseType::Char {
                 quote! {a2lfile::GenericIfData::String(#locationinfo, #itemname.to_owned())}
             } else {
-                let arrayitem_locinfo = quote! {#locationinfo[idx]};
-                let parsercall = generate_indirect_store_simple_item(
-                    &quote! {*item},
+                let arrayidx = format_ident!("arrayidx_{}", depth);
+                let arrayitem = format_ident!("arrayitem_{}", depth);
+                let arrayitem_locinfo = quote! {#locationinfo[#arrayidx]};
+                let parsercall = generate_indirect_store_nested_item(
+                    &quote! {(*#arrayitem)},
                     &arrayitem_locinfo,
                     &arraytype.basetype,
+                    depth + 1,
                 );
                 quote! {a2lfile::GenericIfData::Array({
                     let mut arraycontent = Vec::new();
-                    for (idx, item) in #itemname.iter().enumerate() {
+                    for (#arrayidx, #arrayitem) in #itemname.iter().enumerate() {
                         arraycontent.push(#parsercall);
                     }
                     arraycontent})
